@@ -835,6 +835,21 @@ impl<'a, W: Write> YamlSerializer<'a, W> {
     /// sequence of a tuple variant, the mapping of a struct variant) chooses its own layout.
     /// The returned frame must be passed to [`Self::end_variant`] after the payload.
     fn begin_variant(&mut self, variant: &str) -> Result<VariantFrame> {
+        if self.in_flow > 0 {
+            // Inside a flow collection the one-entry mapping of the variant needs braces of its
+            // own: `[{Variant: payload}]`, `{key: {Variant: payload}}`.
+            self.write_scalar_prefix_if_anchor()?;
+            self.write_space_if_pending()?;
+            self.out.write_str("{")?;
+            self.write_plain_or_quoted(variant)?;
+            self.out.write_str(":")?;
+            self.pending_space_after_colon = true;
+            self.at_line_start = false;
+            return Ok(VariantFrame {
+                prev_map_depth: None,
+                flow: true,
+            });
+        }
         // If we are the value of a mapping key, YAML forbids "key: Variant: value" inline.
         // Emit the variant mapping on the next line indented one level. Also, do not insert
         // a space after the colon when the value may itself be a mapping; instead, defer
@@ -865,6 +880,7 @@ impl<'a, W: Write> YamlSerializer<'a, W> {
             let prev_map_depth = self.current_map_depth.replace(base + 1);
             return Ok(VariantFrame {
                 prev_map_depth: Some(prev_map_depth),
+                flow: false,
             });
         }
         // Otherwise (top-level or sequence context).
@@ -886,14 +902,21 @@ impl<'a, W: Write> YamlSerializer<'a, W> {
             .after_dash_depth
             .take()
             .map(|d| self.current_map_depth.replace(d + 1));
-        Ok(VariantFrame { prev_map_depth })
+        Ok(VariantFrame {
+            prev_map_depth,
+            flow: false,
+        })
     }
 
-    /// Undo what [`Self::begin_variant`] changed for the payload of the variant.
-    fn end_variant(&mut self, frame: VariantFrame) {
+    /// Close the variant: undo what [`Self::begin_variant`] changed for the payload.
+    fn end_variant(&mut self, frame: VariantFrame) -> Result<()> {
         if let Some(prev_map_depth) = frame.prev_map_depth {
             self.current_map_depth = prev_map_depth;
         }
+        if frame.flow {
+            self.out.write_str("}")?;
+        }
+        Ok(())
     }
 
     /// If an anchor is pending for an enum variant with data (`Variant: payload`), emit it before
@@ -1467,7 +1490,7 @@ impl<'a, 'b, W: Write> Serializer for &'a mut YamlSerializer<'b, W> {
     ) -> Result<()> {
         let frame = self.begin_variant(variant)?;
         let res = value.serialize(&mut *self);
-        self.end_variant(frame);
+        self.end_variant(frame)?;
         res
     }
 
@@ -1737,6 +1760,8 @@ impl<'a, 'b, W: Write> Serializer for &'a mut YamlSerializer<'b, W> {
 struct VariantFrame {
     /// `Some(previous current_map_depth)` if it was replaced for the payload.
     prev_map_depth: Option<Option<usize>>,
+    /// Inside a flow collection: the variant opened a `{` that has to be closed.
+    flow: bool,
 }
 
 // ------------------------------------------------------------
@@ -2130,8 +2155,7 @@ impl<'a, 'b, W: Write> SerializeTupleVariant for TupleVariantSer<'a, 'b, W> {
     }
     fn end(mut self) -> Result<()> {
         self.seq.finish()?;
-        self.seq.ser.end_variant(self.frame);
-        Ok(())
+        self.seq.ser.end_variant(self.frame)
     }
 }
 
@@ -2382,8 +2406,7 @@ impl<'a, 'b, W: Write> SerializeStructVariant for StructVariantSer<'a, 'b, W> {
     }
     fn end(mut self) -> Result<()> {
         self.map.finish()?;
-        self.map.ser.end_variant(self.frame);
-        Ok(())
+        self.map.ser.end_variant(self.frame)
     }
 }
 
